@@ -405,4 +405,301 @@ Proof.
     intros Hx. destruct (Gc2 Hx) as [J1 J2]. destruct (Gc1 eq_refl) as [_ J3].
     rewrite (both_closed_halves c' true), J2. cbn [negb andb]. rewrite J1. apply J3. cbn [get_half]. lia.
 Qed.
+
+(* ------------------------------------------------------------------ checkOverlap *)
+Lemma co_loop_len : forall start end_ left right blen rel tags,
+  let r := co_loop start end_ left right blen rel tags in
+  zlen (co_left r) + zlen (co_right r) + co_rel r = zlen left + zlen right + rel /\ rel <= co_rel r.
+Proof.
+  intros start end_. induction left as [|cur rest IH]; intros right blen rel tags; cbn [co_loop].
+  - cbn. split; lia.
+  - destruct (rdiff end_ (rp_seq cur) >? 0).
+    + specialize (IH (cur :: right) blen rel (5 :: tags)). cbn zeta in IH. rewrite !zlen_cons in *. lia.
+    + destruct (rdiff start (sadd (rp_seq cur) (rp_len cur)) <=? 0); [cbn; split; lia|].
+      destruct ((rdiff end_ (sadd (rp_seq cur) (rp_len cur)) <=? 0) && (rdiff start (rp_seq cur) >=? 0)).
+      * specialize (IH right blen (rel + 1) (3 :: tags)). cbn zeta in IH. rewrite !zlen_cons in *. lia.
+      * destruct ((rdiff end_ (sadd (rp_seq cur) (rp_len cur)) <? 0) && (rdiff start (sadd (rp_seq cur) (rp_len cur)) >? 0)).
+        -- destruct ((0 <=? - rdiff start (rp_seq cur)) && (- rdiff start (rp_seq cur) <=? rp_len cur)); cbn [co_left co_right co_rel]; rewrite ?zlen_cons; split; lia.
+        -- destruct ((rdiff start (rp_seq cur) >? 0) && (rdiff end_ (rp_seq cur) <? 0)).
+           ++ destruct ((0 <=? - rdiff end_ (rp_seq cur)) && (- rdiff end_ (rp_seq cur) <=? rp_len cur)).
+              ** specialize (IH (drop_front cur (- rdiff end_ (rp_seq cur)) :: right) blen rel (4 :: tags)). cbn zeta in IH. rewrite !zlen_cons in *. lia.
+              ** cbn [co_left co_right co_rel]. rewrite ?zlen_cons. split; lia.
+           ++ destruct ((rdiff end_ (sadd (rp_seq cur) (rp_len cur)) >=? 0) && (rdiff start (rp_seq cur) <=? 0)).
+              ** destruct ((0 <=? - rdiff start (rp_seq cur)) && (- rdiff start (rp_seq cur) + blen <=? rp_len cur)).
+                 --- specialize (IH (cur :: right) 0 rel (6 :: tags)). cbn zeta in IH. rewrite !zlen_cons in *. lia.
+                 --- cbn [co_left co_right co_rel]. rewrite ?zlen_cons. split; lia.
+              ** specialize (IH (cur :: right) blen rel tags). cbn zeta in IH. rewrite !zlen_cons in *. lia.
+Qed.
+
+Lemma zlen_rev : forall {A} (l : list A), zlen (rev l) = zlen l.
+Proof. intros. unfold zlen. rewrite rev_length. reflexivity. Qed.
+
+Lemma check_overlap_len : forall queue blen start ts e dq,
+  let r := check_overlap queue blen start ts e dq in
+  c2_panic r = false -> zlen (c2_queue r) = zlen queue - c2_rel r + c2_added r /\ 0 <= c2_rel r /\ 0 <= c2_added r.
+Proof.
+  intros queue blen start ts e dq. cbn zeta. unfold check_overlap.
+  pose proof (co_loop_len start (sadd start blen) (rev queue) [] blen 0 []) as L. cbn zeta in L.
+  set (r := co_loop start (sadd start blen) (rev queue) [] blen 0 []) in *. rewrite zlen_rev, zlen_nil in L.
+  destruct (co_panic r); [cbn; discriminate|].
+  destruct ((0 <? co_len r) && dq); cbn [c2_queue c2_rel c2_added c2_panic]; intros _; rewrite !zlen_app, ?zlen_rev;
+    pose proof (zlen_nonneg (to_pages start (co_len r) ts e)); split; lia.
+Qed.
+
+(* ------------------------------------------------------------------ AssembleWithContext *)
+
+Lemma half_seen_ok : forall h s, half_ok h -> half_ok (mkH (h_pages h) (h_saved h) (h_queue h) (h_next h) s (h_closed h)).
+Proof. intros h s H. exact H. Qed.
+
+Lemma finish_next : forall c1 w (n : Z) (b : bool) u rm x,
+  good u c1 rm x -> good u (if b then c1 else put_half c1 w (set_next (get_half c1 w) n)) rm x.
+Proof.
+  intros c1 w n b u rm x Gd. destruct b; [exact Gd|].
+  destruct Gd as [Gd|[K1 [K2 [K3 K4]]]]; [left; exact Gd|right].
+  set (c2 := put_half c1 w (set_next (get_half c1 w) n)).
+  assert (S1 : cp c2 = cp c1) by (unfold c2; rewrite (cp_halves _ w), get_put_same, get_put_other, (cp_halves c1 w); reflexivity).
+  assert (S2 : conn_ok c2) by (unfold c2; apply (conn_ok_halves _ w); rewrite get_put_same, get_put_other; apply (conn_ok_halves c1 w) in K1; exact K1).
+  assert (S3 : both_closed c2 = both_closed c1) by (unfold c2; rewrite (both_closed_halves _ w), get_put_same, get_put_other, (both_closed_halves c1 w); reflexivity).
+  assert (S4 : rc_sid c2 = rc_sid c1) by apply sid_put.
+  split; [exact S2|]. split; [lia|]. rewrite S3, S4. split; assumption.
+Qed.
+
+Lemma assemble_conn_good : forall c w x seq syn fin rst len ts c' rm x', cok c -> x_panic x = false ->
+  assemble_conn v cfg c w x seq syn fin rst len ts = (c', rm, x') ->
+  good (x_used x - cp c) c' rm x' /\ rc_sid c' = rc_sid c.
+Proof.
+  intros c w x seq syn fin rst len ts c' rm x' [Hok Hd] Hp H. unfold assemble_conn in H.
+  set (h0 := get_half c w) in *.
+  set (h := mkH (h_pages h0) (h_saved h0) (h_queue h0) (h_next h0) (if h_seen h0 <? ts then ts else h_seen h0) (h_closed h0)) in *.
+  pose proof (proj1 (conn_ok_halves c w) Hok) as [Ok1 Ok2]. fold h0 in Ok1.
+  (* a half that differs from the original in nextSeq / lastSeen only *)
+  assert (Same : forall hh, h_pages hh = h_pages h0 -> h_saved hh = h_saved h0 -> h_queue hh = h_queue h0 -> h_closed hh = h_closed h0 ->
+                 good (x_used x - cp c) (put_half c w hh) false x /\ rc_sid (put_half c w hh) = rc_sid c).
+  { intros hh E1 E2 E3 E4. split; [|apply sid_put]. right.
+    assert (Hh : half_ok hh /\ hp hh = hp h0). { unfold half_ok, hp in *. rewrite E1, E2, E3, E4. split; [exact Ok1|reflexivity]. }
+    split; [apply (conn_ok_halves _ w); rewrite get_put_same, get_put_other; split; [apply Hh|exact Ok2]|].
+    split; [rewrite (cp_halves _ w), get_put_same, get_put_other, (cp_halves c w); fold h0; lia|].
+    split; [discriminate|]. intros _ Hb. rewrite sid_put. apply Hd.
+    rewrite (both_closed_halves _ w), get_put_same, get_put_other in Hb. rewrite (both_closed_halves c w). fold h0. rewrite <- E4. exact Hb. }
+  destruct (h_closed h) eqn:Ec.
+  - inversion H; subst. apply Same; reflexivity.
+  - destruct (classify (h_next h) seq syn) as [[seq1 next1] queue].
+    set (hn := set_next h next1) in *.
+    destruct queue.
+    + (* queue branch *)
+      pose proof (check_overlap_len (h_queue hn) len seq1 ts (rst || fin) true) as L. cbn zeta in L.
+      destruct (check_overlap (h_queue hn) len seq1 ts (rst || fin) true) as [q2 l2 added rel tags pk] eqn:Eco.
+      cbn [c2_panic c2_queue c2_rel c2_added c2_len] in *.
+      destruct pk.
+      * inversion H; subst. split; [left; reflexivity|apply sid_put].
+      * specialize (L eq_refl). destruct L as [L1 [L2 L3]].
+        set (pages1 := h_pages hn - rel + added) in *. set (used1 := x_used x - rel + added) in *.
+        set (h1 := mkH pages1 (h_saved hn) q2 (h_next hn) (h_seen hn) (h_closed hn)) in *.
+        assert (Hh1 : half_ok h1 /\ hp h1 = hp h0 - rel + added /\ h_closed h1 = false).
+        { unfold half_ok, hp, h1, pages1, hn, h in *. cbn [h_pages h_saved h_queue h_closed set_next] in *. destruct Ok1 as [Ok1 _].
+          split; [split; [lia|intros; congruence]|split; [lia|exact Ec]]. }
+        destruct Hh1 as [Hh1 [Hp1 Hc1]].
+        assert (Plain : good (x_used x - cp c) (put_half c w h1) false (with_used x used1) /\ rc_sid (put_half c w h1) = rc_sid c).
+        { split; [|apply sid_put]. right.
+          split; [apply (conn_ok_halves _ w); rewrite get_put_same, get_put_other; split; assumption|].
+          split; [rewrite (cp_halves _ w), get_put_same, get_put_other, (cp_halves c w); fold h0; unfold with_used, used1; cbn [x_used]; lia|].
+          split; [discriminate|]. intros _ Hb. rewrite (both_closed_halves _ w), get_put_same, Hc1 in Hb. discriminate. }
+        destruct (limit_hit cfg pages1 used1); [|inversion H; subst; exact Plain].
+        destruct q2 as [|p q'] eqn:Eq2; [inversion H; subst; exact Plain|].
+        set (h2 := mkH pages1 (h_saved hn) q' (h_next hn) (h_seen hn) (h_closed hn)) in *.
+        destruct (send_conn v cfg c w h2 (with_used x used1) (CPage p) ts) as [[[c1 rm1] x1] nextSeq] eqn:Es.
+        inversion H; subst; clear H.
+        assert (Hpg : h_pages h2 = hp h2 + extra (CPage p)).
+        { destruct Hh1 as [Hh1 _]. unfold hp, extra, h2, h1 in *. cbn [h_pages h_saved h_queue is_page] in *. rewrite zlen_cons in Hh1. lia. }
+        destruct (send_conn_good c w h2 (with_used x used1) (CPage p) ts _ _ _ _ Ok2 Hpg Hc1 Hp Es) as [Gd [_ [Gs _]]].
+        assert (Ccp : cp (put_half c w h2) = cp c - rel + added - 1).
+        { rewrite (cp_halves _ w), get_put_same, get_put_other, (cp_halves c w). fold h0.
+          unfold hp, h2, h1 in *. cbn [h_saved h_queue] in *. rewrite zlen_cons in Hp1. lia. }
+        split; [|destruct (nextSeq =? INVALID); [exact Gs|rewrite sid_put; exact Gs]].
+        apply finish_next. cbn [extra is_page] in Gd. unfold with_used, used1 in Gd. cbn [x_used] in Gd.
+        replace (x_used x - cp c) with (x_used x - rel + added - 1 - cp (put_half c w h2)) by lia. exact Gd.
+    + (* in-order branch *)
+      destruct (overlap_existing (h_next hn) seq1 len) as [[b1 seq2] pk0].
+      destruct pk0; [inversion H; subst; split; [left; reflexivity|apply sid_put]|].
+      pose proof (check_overlap_len (h_queue hn) b1 seq2 ts (rst || fin) false) as L. cbn zeta in L.
+      destruct (check_overlap (h_queue hn) b1 seq2 ts (rst || fin) false) as [q2 l2 added rel tags pk] eqn:Eco.
+      cbn [c2_panic c2_queue c2_rel c2_added c2_len] in *.
+      destruct pk; [inversion H; subst; split; [left; reflexivity|apply sid_put]|].
+      specialize (L eq_refl). destruct L as [L1 [L2 L3]].
+      assert (Ea : added = 0).
+      { unfold check_overlap in Eco. destruct (co_panic _) in Eco; [inversion Eco; reflexivity|].
+        rewrite andb_false_r in Eco. inversion Eco; reflexivity. }
+      subst added.
+      set (pages1 := h_pages hn - rel) in *. set (used1 := x_used x - rel) in *.
+      set (h1 := mkH pages1 (h_saved hn) q2 (h_next hn) (h_seen hn) (h_closed hn)) in *.
+      assert (Hh1 : half_ok h1 /\ hp h1 = hp h0 - rel /\ h_closed h1 = false).
+      { unfold half_ok, hp, h1, pages1, hn, h in *. cbn [h_pages h_saved h_queue h_closed set_next] in *. destruct Ok1 as [Ok1 _].
+        split; [split; [lia|intros; congruence]|split; [lia|exact Ec]]. }
+      destruct Hh1 as [Hh1 [Hp1 Hc1]].
+      destruct ((0 <? l2) || (rst || fin) || syn).
+      * destruct (send_conn v cfg c w h1 (with_used x used1) (CLive (mkLive l2 seq2 syn (rst || fin) ts)) ts) as [[[c1 rm1] x1] nextSeq] eqn:Es.
+        inversion H; subst; clear H.
+        assert (Hpg : h_pages h1 = hp h1 + extra (CLive (mkLive l2 seq2 syn (rst || fin) ts))).
+        { destruct Hh1 as [Hh1 _]. unfold extra. cbn [is_page]. lia. }
+        destruct (send_conn_good c w h1 (with_used x used1) _ ts _ _ _ _ Ok2 Hpg Hc1 Hp Es) as [Gd [_ [Gs _]]].
+        assert (Ccp : cp (put_half c w h1) = cp c - rel).
+        { rewrite (cp_halves _ w), get_put_same, get_put_other, (cp_halves c w). fold h0. lia. }
+        split; [|destruct (nextSeq =? INVALID); [exact Gs|rewrite sid_put; exact Gs]].
+        apply finish_next. cbn [extra is_page] in Gd. unfold with_used, used1 in Gd. cbn [x_used] in Gd.
+        replace (x_used x - cp c) with (x_used x - rel - 0 - cp (put_half c w h1)) by lia. exact Gd.
+      * inversion H; subst. split; [|apply sid_put]. right.
+        split; [apply (conn_ok_halves _ w); rewrite get_put_same, get_put_other; split; assumption|].
+        split; [rewrite (cp_halves _ w), get_put_same, get_put_other, (cp_halves c w); fold h0; unfold with_used, used1; cbn [x_used]; lia|].
+        split; [discriminate|]. intros _ Hb. rewrite (both_closed_halves _ w), get_put_same, Hc1 in Hb. discriminate.
+Qed.
+
+(* ------------------------------------------------------------------ the pool *)
+Lemma both_closed_cp0 : forall c, conn_ok c -> both_closed c = true -> cp c = 0.
+Proof.
+  intros c [[_ H1] [_ H2]] Hb. unfold both_closed in Hb. apply andb_true_iff in Hb. destruct Hb as [B1 B2].
+  unfold cp. rewrite (H1 B1), (H2 B2). reflexivity.
+Qed.
+
+Definition rinv (st : rstate) : Prop :=
+  rs_cfg st = cfg /\ rs_used st = psum (rs_conns st) /\ Forall cok (rs_conns st).
+
+Lemma rsplit_key_spec : forall k l pre c post, rsplit_key k l = Some (pre, c, post) -> l = pre ++ c :: post.
+Proof.
+  induction l as [|x l IH]; intros pre c post H; cbn [rsplit_key] in H; [discriminate|].
+  destruct (rc_key x =? k).
+  - inversion H; subst. reflexivity.
+  - destruct (rsplit_key k l) as [[[a y] b]|] eqn:E2; [|discriminate]. inversion H; subst.
+    rewrite (IH _ _ _ eq_refl). reflexivity.
+Qed.
+
+Lemma rdead_inv : forall st, rinv st -> rinv (rdead st).
+Proof. intros st H. exact H. Qed.
+
+Lemma rassemble_inv : forall st k dir seq syn fin rst len ts, rinv st ->
+  rinv (fst (rassemble v st k dir seq syn fin rst len ts)).
+Proof.
+  intros st k dir seq syn fin rst len ts [Hc [Hu HF]]. unfold rassemble. rewrite Hc.
+  destruct (rsplit_key k (rs_conns st)) as [[[pre c] post]|] eqn:Es.
+  - apply rsplit_key_spec in Es. rewrite Es in HF, Hu.
+    apply Forall_app in HF. destruct HF as [F1 F2]. inversion F2 as [|? ? Hcok F3]; subst.
+    destruct (assemble_conn v cfg c (Bool.eqb dir (rc_dir c)) (mkCtx (rs_used st) [] false) seq syn fin rst len ts) as [[c1 rm] x1] eqn:Ea.
+    destruct (assemble_conn_good c _ (mkCtx (rs_used st) [] false) _ _ _ _ _ _ _ _ _ Hcok eq_refl Ea) as [Gd _]. cbn [x_used] in Gd.
+    destruct (x_panic x1) eqn:Ep; cbn [fst].
+    + unfold rinv, rdead. cbn [rs_cfg rs_used rs_conns]. rewrite Es. split; [exact Hc|]. split; [exact Hu|apply Forall_app; split; assumption].
+    + destruct (good_G _ _ _ _ Gd Ep) as [[K1 [K2 K3]] U]. rewrite psum_app, psum_cons in Hu.
+      unfold rinv. cbn [rs_cfg rs_used rs_conns]. split; [reflexivity|]. destruct rm.
+      * pose proof (both_closed_cp0 c1 K1 (K2 eq_refl)). rewrite psum_app. split; [lia|apply Forall_app; split; assumption].
+      * rewrite psum_app, psum_cons. split; [lia|]. apply Forall_app. split; [assumption|]. constructor; [|assumption].
+        split; [exact K1|exact (K3 eq_refl)].
+  - set (sid := rs_nstreams st + 1).
+    destruct (if rs_free st <=? 0 then (rs_alloc st - 1, 2 * rs_alloc st) else (rs_free st - 1, rs_alloc st)) as [free1 alloc1].
+    set (c := mkRC k dir sid 0 (new_half ts) (new_half ts)).
+    assert (Hcok : cok c).
+    { unfold cok, conn_ok, half_ok, both_closed, c, new_half, hp. cbn. repeat split; try reflexivity; try discriminate. }
+    assert (Hcp : cp c = 0) by reflexivity.
+    destruct (assemble_conn v cfg c true (mkCtx (rs_used st) [] false) seq syn fin rst len ts) as [[c1 rm] x1] eqn:Ea.
+    destruct (assemble_conn_good c _ (mkCtx (rs_used st) [] false) _ _ _ _ _ _ _ _ _ Hcok eq_refl Ea) as [Gd _]. cbn [x_used] in Gd.
+    destruct (x_panic x1) eqn:Ep; cbn [fst].
+    + split; [exact Hc|]. split; assumption.
+    + destruct (good_G _ _ _ _ Gd Ep) as [[K1 [K2 K3]] U].
+      unfold rinv. cbn [rs_cfg rs_used rs_conns]. split; [reflexivity|]. destruct rm.
+      * pose proof (both_closed_cp0 c1 K1 (K2 eq_refl)). split; [lia|exact HF].
+      * rewrite psum_app, psum_cons. cbn [psum fold_right]. split; [lia|]. apply Forall_app. split; [assumption|].
+        constructor; [|constructor]. split; [exact K1|exact (K3 eq_refl)].
+Qed.
+
+Lemma rflush_conns_panic : forall f l x, x_panic x = true -> x_panic (ra_x (rflush_conns f l x)) = true.
+Proof. intros f l x H. destruct l; cbn [rflush_conns]; [exact H|]. rewrite H. exact H. Qed.
+
+Lemma rflush_conns_inv : forall f (P : rconn -> Prop),
+  (forall c x c' rm x' a b, cok c -> x_panic x = false -> f c x = (c', rm, x', a, b) ->
+     good (x_used x - cp c) c' rm x' /\ (x_panic x' = false -> rm = false -> P c')) ->
+  forall l x, Forall cok l -> x_panic x = false ->
+  x_panic (ra_x (rflush_conns f l x)) = true \/
+  (x_used (ra_x (rflush_conns f l x)) - psum (ra_keep (rflush_conns f l x)) = x_used x - psum l /\
+   Forall cok (ra_keep (rflush_conns f l x)) /\ Forall P (ra_keep (rflush_conns f l x))).
+Proof.
+  intros f P Hf. induction l as [|c l IH]; intros x HF Hp; cbn [rflush_conns].
+  - right. cbn. split; [lia|split; constructor].
+  - rewrite Hp. inversion HF as [|? ? Hc HF']; subst.
+    destruct (f c x) as [[[[c1 rm] x1] a] b] eqn:Ef.
+    destruct (Hf _ _ _ _ _ _ _ Hc Hp Ef) as [Gd HP].
+    destruct (x_panic x1) eqn:Ep1.
+    + left. cbn [ra_x]. apply rflush_conns_panic. exact Ep1.
+    + destruct (good_G _ _ _ _ Gd Ep1) as [[K1 [K2 K3]] U].
+      destruct (IH x1 HF' Ep1) as [I|[I1 [I2 I3]]]; [left; exact I|right]. cbn [ra_x ra_keep]. rewrite psum_cons.
+      destruct rm.
+      * pose proof (both_closed_cp0 c1 K1 (K2 eq_refl)). split; [lia|split; assumption].
+      * rewrite psum_cons. split; [lia|]. split; constructor; try assumption.
+        -- split; [exact K1|exact (K3 eq_refl)].
+        -- apply HP; reflexivity.
+Qed.
+
+Lemma rflush_with_inv : forall f (P : rconn -> Prop) st fa,
+  (forall c x c' rm x' a b, cok c -> x_panic x = false -> f c x = (c', rm, x', a, b) ->
+     good (x_used x - cp c) c' rm x' /\ (x_panic x' = false -> rm = false -> P c')) ->
+  rinv st ->
+  rinv (fst (rflush_with f st fa)) /\
+  (ro_panic (snd (rflush_with f st fa)) = false -> Forall P (rs_conns (fst (rflush_with f st fa)))).
+Proof.
+  intros f P st fa Hf [Hc [Hu HF]]. unfold rflush_with.
+  destruct (rflush_conns_inv f P Hf (rs_conns st) (mkCtx (rs_used st) [] false) HF eq_refl) as [I|[I1 [I2 I3]]].
+  - rewrite I. cbn [fst snd ro_panic]. split; [split; [exact Hc|split; assumption]|discriminate].
+  - destruct (x_panic (ra_x (rflush_conns f (rs_conns st) (mkCtx (rs_used st) [] false)))) eqn:Ep; cbn [fst snd ro_panic].
+    + split; [split; [exact Hc|split; assumption]|discriminate].
+    + cbn [x_used] in I1. split; [|intros _; exact I3]. unfold rinv. cbn [rs_cfg rs_used rs_conns]. split; [exact Hc|]. split; [lia|exact I2].
+Qed.
+
+Lemma rstep_inv : forall st o, rinv st -> rinv (fst (rstep v st o)).
+Proof.
+  intros st o H. unfold rstep. destruct (rs_dead st); [exact H|]. destruct o.
+  - apply rassemble_inv. exact H.
+  - destruct H as [Hc H']. rewrite Hc.
+    apply (rflush_with_inv (flush_conn v cfg t tc) (fun _ => True)); [|split; [exact Hc|exact H']].
+    intros c x c' rm x' a b Hcok Hp Hf. split; [eapply flush_conn_good; eauto|auto].
+  - destruct H as [Hc H']. rewrite Hc.
+    apply (rflush_with_inv (flush_all_conn v cfg) (fun _ => True)); [|split; [exact Hc|exact H']].
+    intros c x c' rm x' a b Hcok Hp Hf. split; [eapply flush_all_conn_good; eauto|auto].
+Qed.
+
+Lemma rrun_state_inv : forall ops st, rinv st -> rinv (fst (rrun_state v st ops)).
+Proof.
+  induction ops as [|o ops IH]; intros st H; cbn [rrun_state]; [exact H|].
+  pose proof (rstep_inv st o H) as H1. destruct (rstep v st o) as [st' ou]. cbn [fst] in H1.
+  specialize (IH st' H1). destruct (rrun_state v st' ops) as [st2 ev]. exact IH.
+Qed.
+
+(* C11_flushall for reassembly *)
+Lemma r_flushall_step : forall st, rinv st -> rs_dead st = false ->
+  ro_panic (snd (rstep v st RFlushAll)) = false ->
+  rs_used (fst (rstep v st RFlushAll)) = 0 /\
+  Forall (fun c => both_closed c = true /\ declines cfg (rc_sid c) = true) (rs_conns (fst (rstep v st RFlushAll))).
+Proof.
+  intros st H Hd Hp. pose proof (rstep_inv st RFlushAll H) as H1. unfold rstep in *. rewrite Hd in *.
+  destruct H as [Hc H']. rewrite Hc in *.
+  set (P := fun c => conn_ok c /\ both_closed c = true /\ declines cfg (rc_sid c) = true).
+  destruct (rflush_with_inv (flush_all_conn v cfg) P st (Some (zlen (rs_conns st)))) as [_ HP]; [|split; [exact Hc|exact H']|].
+  - intros c x c' rm x' a b Hcok Hpx Hf.
+    destruct (flush_all_conn_good _ _ _ _ _ _ _ Hcok Hpx Hf) as [Gd [_ Hb]]. split; [exact Gd|].
+    intros Hx Hrm. destruct (good_G _ _ _ _ Gd Hx) as [[K1 [K2 K3]] _]. subst rm.
+    split; [exact K1|]. split; [exact (Hb Hx)|exact (K3 eq_refl (Hb Hx))].
+  - specialize (HP Hp). destruct H1 as [_ [Hu _]]. split.
+    + rewrite Hu. clear - HP. induction HP as [|c l [K1 [K2 _]] _ IH]; [reflexivity|]. rewrite psum_cons, IH.
+      rewrite (both_closed_cp0 c K1 K2). reflexivity.
+    + eapply Forall_impl; [|exact HP]. intros c [_ K]. exact K.
+Qed.
 End Fixed.
+
+Lemma rinit_inv : forall cfg, rinv cfg (rinit cfg).
+Proof. intros. unfold rinv, rinit. cbn. split; [reflexivity|split; [reflexivity|constructor]]. Qed.
+
+(* C11_pages for the repaired reassembly *)
+Lemma r_pages : forall v cfg ops, v_saved v = true -> v_hpages v = true ->
+  let st := fst (rrun_state v (rinit cfg) ops) in
+  rs_used st = psum (rs_conns st) /\
+  Forall (fun c => h_pages (rc_c2s c) = hp (rc_c2s c) /\ h_pages (rc_s2c c) = hp (rc_s2c c)) (rs_conns st).
+Proof.
+  intros v cfg ops Hs Hh. cbn zeta.
+  destruct (rrun_state_inv v cfg Hs Hh ops _ (rinit_inv cfg)) as [_ [Hu HF]]. split; [exact Hu|].
+  eapply Forall_impl; [|exact HF]. intros c [[[K1 _] [K2 _]] _]. split; assumption.
+Qed.
